@@ -2,11 +2,13 @@ module xkvharness
 
 go 1.23.4
 
-require github.com/XiXi-2024/xixi-kv v0.0.0
+require (
+	github.com/XiXi-2024/xixi-kv v0.0.0
+	github.com/cespare/xxhash v1.1.0
+)
 
 require (
 	github.com/bwmarrin/snowflake v0.3.0 // indirect
-	github.com/cespare/xxhash v1.1.0 // indirect
 	github.com/edsrzf/mmap-go v1.2.0 // indirect
 	github.com/gofrs/flock v0.12.1 // indirect
 	github.com/google/btree v1.1.3 // indirect
